@@ -297,6 +297,7 @@ pub fn history(cx: &mut Ctx, family: &str, maxops: u64) {
             "entry" | "entryd6" => &[("ins", 14), ("rem", 4), ("entry", 40), ("rawentry", 26), ("rawget", 6), ("drive", 4), ("retain", 2), ("shrink", 1)],
             "clone" => &[("ins", 24), ("rem", 8), ("clone", 10), ("clonefrom", 14), ("eq", 10), ("new", 6), ("drive", 5), ("retain", 2), ("get", 4), ("drop", 2), ("clear", 1), ("reserve", 2)],
             "capacity" => &[("ins", 24), ("rem", 8), ("reserve", 14), ("tryreserve", 16), ("shrink", 14), ("retain", 4), ("drive", 5), ("new", 4), ("entry", 3), ("clear", 1), ("extend", 3)],
+            "ser" => &[("ins", 30), ("rem", 10), ("roundtrip", 22), ("deser", 6), ("drive", 10), ("new", 3), ("retain", 3), ("clear", 1), ("shrink", 2), ("reserve", 2)],
             "par" => &[("ins", 26), ("rem", 8), ("pariter", 30), ("pareq", 6), ("parextend", 3), ("drive", 8), ("new", 3), ("clone", 5), ("retain", 3), ("reserve", 2), ("shrink", 2)],
             "fuse" => &[("ins", 30), ("rem", 6), ("entry", 14), ("rawentry", 8), ("retain", 8), ("drainfilter", 8), ("reserve", 4), ("shrink", 2), ("clone", 5), ("clonefrom", 6), ("iter", 3), ("drive", 3), ("new", 2), ("get", 3)],
             _ => &[("ins", 30), ("get", 8), ("rem", 8), ("clear", 1), ("reserve", 3), ("tryreserve", 2), ("shrink", 3), ("iter", 4), ("retain", 3), ("drainfilter", 3), ("drain", 1), ("intoiter", 1), ("extend", 2), ("fromiter", 1), ("clone", 2), ("clonefrom", 2), ("eq", 2), ("drop", 1), ("entry", 8), ("rawentry", 5), ("rawget", 2), ("new", 2), ("drive", 3)],
@@ -481,6 +482,36 @@ pub fn history(cx: &mut Ctx, family: &str, maxops: u64) {
                 }
             }
             "drop" => op_drop(cx, s),
+            #[cfg(feature = "ser")]
+            "roundtrip" => {
+                // serialise s, deserialise what was emitted into another slot: equal collections
+                let items = op_serialize(cx, s);
+                let d = (s + 1 + cx.rng.below(NSLOTS as u64 - 1) as usize) % NSLOTS;
+                let hint = crate::ser::pick_hint(&mut cx.rng, items.len());
+                op_deserialize(cx, d, items, hint);
+                if cx.monitors && cx.maps[d].as_ref().unwrap() != cx.maps[s].as_ref().unwrap() {
+                    vio("C16", format!("the round trip of slot {} through serde is not equal to it", s));
+                }
+            }
+            #[cfg(feature = "ser")]
+            "deser" => {
+                // arbitrary input: repeated keys, any hint
+                // (repeats directly follow their first occurrence, see set.rs)
+                let n = cx.rng.below(30);
+                let mut seen = std::collections::BTreeSet::new();
+                let mut items: Vec<(u64, u64, u64)> = Vec::new();
+                for _ in 0..n {
+                    let k = cx.rng.below(h.universe.min(80));
+                    if seen.insert(k) {
+                        items.push((k, cx.kid(), cx.val()));
+                        if cx.rng.below(3) == 0 {
+                            items.push((k, cx.kid(), cx.val()));
+                        }
+                    }
+                }
+                let hint = crate::ser::pick_hint(&mut cx.rng, items.len());
+                op_deserialize(cx, s, items, hint);
+            }
             #[cfg(feature = "par")]
             "pariter" => {
                 let v = cx.rng.below(5);
